@@ -4,6 +4,9 @@ import json, os
 here = os.path.dirname(os.path.dirname(os.path.abspath(__file__)))
 TECH = "deterministic simulation with fault injection"
 claimed = {
+ "C09": ("exploration", "seeded search over blobs (empty, null-chunk runs, repeated chunks), Seek/Read histories on the real IndexPos and read requests on the real FUSE index-file node (sequential on several handles and concurrent on one handle), with store faults at chosen requests; bytes.Reader-style model oracle over the blob",
+         "sampling; the FUSE kernel bridge is a stub (node methods are called in process)",
+         TECH + " (fault-injecting store, seeded scheduler for shared handles, reference-model oracle)"),
  "C11": ("exploration", "seeded search over chain shapes, member contents, per-member fault schedules, concurrent clients and a reconfiguration task for the real StoreRouter, Cache, RepairableCache, FailoverGroup and SwapStore; per-operation trace conformance of the member calls and the result against the documented policy evaluated over the observed member outcomes",
          "sampling; failover member choice is bounded, not predicted; de-duplication inside chains is left to C12",
          TECH + " (seeded scheduler, fault-scheduled member stores, per-operation policy conformance)"),
